@@ -77,6 +77,9 @@ type EffectsInfo struct {
 }
 
 func pointerLike(t types.Type) bool {
+	if _, ok := t.(*types.TypeParam); ok {
+		return false // elements of a generic collection are treated as values
+	}
 	switch u := t.Underlying().(type) {
 	case *types.Pointer, *types.Slice, *types.Map, *types.Chan, *types.Interface, *types.Signature:
 		return true
@@ -191,14 +194,17 @@ func (ei *EffectsInfo) analyse(f *ssa.Function) bool {
 			if a := cellOf(x.X); a != nil {
 				return a
 			}
-		case *ssa.IndexAddr:
-			if _, isArr := x.X.Type().Underlying().(*types.Pointer); isArr {
-				if a := cellOf(x.X); a != nil {
-					return a
-				}
-			}
 		}
 		return nil
+	}
+	// element store into a freshly allocated array (composite literal): contents are not tracked
+	freshElem := func(v ssa.Value) bool {
+		ia, ok := v.(*ssa.IndexAddr)
+		if !ok {
+			return false
+		}
+		_, isAlloc := ia.X.(*ssa.Alloc)
+		return isAlloc
 	}
 	applyCall := func(ins ssa.Instruction, c *ssa.CallCommon, res ssa.Value) LocSet {
 		// returns alias of the (first) result
@@ -327,6 +333,8 @@ func (ei *EffectsInfo) analyse(f *ssa.Function) bool {
 			case *ssa.Store:
 				if a := cellOf(x.Addr); a != nil {
 					setCell(a, get(x.Val))
+				} else if freshElem(x.Addr) {
+					// nothing: element of a local array literal
 				} else {
 					write(ins, get(x.Addr), "store through "+Path(x.Addr)+" into "+get(x.Addr).Describe(f))
 				}
